@@ -107,6 +107,7 @@ package filters
 
 //@ func filter "slice"
 //@ props C16 C03 C01
+//@ overflow
 //@ panics values.TypeError
 //@ assigns alloc S$Int
 //@ requires optional: length != nil
